@@ -248,6 +248,7 @@ func c01(c *Ctx) {
 	}
 
 	c01plugin(c)
+	c01walk(c)
 
 	// ---- LOCK
 	r.Rule("LOCK: GroupQuotaManager.{quotaInfoMap,runtimeQuotaCalculatorMap,quotaTopoNodeMap} are read under hierarchyUpdateLock (R/W) and written under the write lock; *NoLock helpers pass the requirement to their callers")
